@@ -384,6 +384,12 @@ def run(ctx) -> None:
     except AnalysisError as exc:
         ctx.defer(str(exc))
     ctx.guard(medform.check_medium_property, ctx, "C18.formulation")
+    # Model.exchanges / medium read the model as it is at the time of the call: nothing derived from the model is kept on
+    # it (or shared with a copy) beyond the next edit (shared with C02)
+    from . import stores
+
+    ctx.rule("C02.derived", "T1: a value derived from an object's own state and kept on the object is dropped by every method of the class that changes that state (shared with C02)", floor=6, hard=1)
+    ctx.guard(stores.check_derived_stores, ctx, "C02.derived")
     ctx.rule("C18.boundary", "finite domain: which reactions are exchanges / demands / sinks (is_boundary_type, find_boundary_types evaluated over the case table they distinguish)", floor=2)
     ctx.guard(medform.check_boundary_types, ctx, "C18.boundary")
     formulation_failed = len(ctx.findings) > n0 or bool(ctx.deferred)
